@@ -70,7 +70,7 @@ fn pipe_case(allow: bool, ratio: u32, td: u8, p: u8, vref: u32, mn: u128, mx: u1
         emit("pipe/trivial", "Pipe false None ((1, 0), (1, 0)) None (Ok (0, 1, 1))");
         return;
     };
-    let rr = no_panic(move || run(&env, &[(tspec, fspec)], false, false, 1, false));
+    let rr = no_panic(move || run(&env, &[(tspec, fspec)], false, false, 1, false, true));
     let fo = if ratio == 0 { "None".to_string() } else { format!("(Some {})", ratio as u128 * 1_000_000_000_000) };
     let (tag, rs) = match &rr {
         None => ("pipe/panic".to_string(), "(Err 9)".to_string()),
